@@ -109,20 +109,30 @@ def sisTrigger [Transc α] [Add α] [Mul α] [Div α] [Zero α] [One α] [NatCas
     (cfg : SisCfg α) (cor : PSet π α) : Bool :=
   decide (neffLog cor.logw < (cfg.N : α) / ((3 : Nat) : α))
 
-/-- one `SIS::filtering_step()` followed by `++filtering_step_` -/
-def sisStep [Transc α] [Add α] [Sub α] [Mul α] [Div α] [Neg α] [Zero α] [One α] [NatCast α]
+/-- one `SIS::filtering_step()` followed by `++filtering_step_`, for a resampling object `rs`
+    (`resampling().resample(cor_particle_, res_particle, res_parent)`, virtual: `Resampling` or
+    `ResamplingWithPrior`); `rs cor res u` gets the corrected set, the freshly constructed destination
+    and the next draw of its generator -/
+def sisStepWith [Transc α] [Add α] [Sub α] [Mul α] [Div α] [Neg α] [Zero α] [One α] [NatCast α]
     [LT α] [DecidableLT α] [Inhabited α] [Inhabited π]
+    (rs : PSet π α → PSet π α → α → PSet π α × List Int)
     (cfg : SisCfg α) (s : SisState π α) (ev : SisEvent π α) : SisState π α :=
   let f := sisFlags s ev
   let pred := sisPredict s ev
   let cor := sisCorrect cfg s ev
   if sisTrigger cfg cor then
     -- ParticleSet res_particle(num_particle_, cor_particle_.dim_linear, cor_particle_.dim_circular);
-    let r := resample cor (PSet.fresh cfg.N cor.lin cor.circ) (s.rng.headD default)
+    let r := rs cor (PSet.fresh cfg.N cor.lin cor.circ) (s.rng.headD default)
     { step := s.step + 1, pred := pred, cor := r.1, skipPred := f.1, skipCor := f.2,
       rng := s.rng.tail, resampled := true, parents := r.2 }
   else
     { step := s.step + 1, pred := pred, cor := cor, skipPred := f.1, skipCor := f.2,
       rng := s.rng, resampled := false, parents := [] }
+
+/-- the step with the plain systematic resampler `Resampling` -/
+def sisStep [Transc α] [Add α] [Sub α] [Mul α] [Div α] [Neg α] [Zero α] [One α] [NatCast α]
+    [LT α] [DecidableLT α] [Inhabited α] [Inhabited π]
+    (cfg : SisCfg α) (s : SisState π α) (ev : SisEvent π α) : SisState π α :=
+  sisStepWith resample cfg s ev
 
 end BFL.PF
